@@ -602,7 +602,14 @@ def withInitialTags (n : Nat) (e : String) : String :=
   if n == 0 || !e.startsWith "E[]" then e else
   "E[" ++ ".".intercalate ((List.range n).reverse.map fun i => toString (90 + i)) ++ "]" ++ (e.drop 3).toString
 
-def twiceOracle (nctx : Nat) (impl : String) : String :=
+/-- `E[tags]body` without its tags -/
+def stripTrail (e : String) : String :=
+  if e.startsWith "E[" then "E[]" ++ "]".intercalate ((e.splitOn "]").drop 1) else e
+
+/-- `hasCtx`: the grammar itself pushes error contexts (rules with their own transforms): the
+diagnostic then carries those tags as well, and clause (c) compares the errors without tags (which
+transforms apply, and in which order, is C15's matter). -/
+def twiceOracle (nctx : Nat) (hasCtx : Bool) (impl : String) : String :=
   match impl.splitOn "#" with
   | [a, b] =>
     match parseObs a, parseObs b with
@@ -620,7 +627,8 @@ def twiceOracle (nctx : Nat) (impl : String) : String :=
       let p3 := if ra.startsWith "err:" then
           let e := (ra.drop 4).toString
           -- the diagnostic is what the sink receives: the error after the transforms of the context
-          (if rb == ra || ob.sink.head? == some (withInitialTags nctx e) then []
+          (if rb == ra || ob.sink.head? == some (withInitialTags nctx e) ||
+              (hasCtx && ob.sink.head?.map stripTrail == some (stripTrail e)) then []
            else [s!"(c) sink-less parse fails with {e}; with a sink the result is {(rb.splitOn ":cur=").headD rb} and the first diagnostic {ob.sink.head?}"])
         else []
       let ps := p1 ++ p2 ++ p3
@@ -752,7 +760,7 @@ def run (fam : String) (fields : List String) : String × String :=
       else if fam == "bracket" then bracketOracle c impl
       else if fam == "recover" then recoverOracle c impl
       else if fam == "list" then listOracle c impl
-      else if fam == "twice" then twiceOracle c.nctx impl
+      else if fam == "twice" then twiceOracle c.nctx (((reprStr c.g).splitOn "ctxPush").length > 1) impl
       else if fam == "errors" then errorsOracle c impl
       else if fam == "term" then termOracle impl
       else if fam == "nopanic" then nopanicOracle impl
